@@ -57,15 +57,17 @@ def sources(tier, seed, ctx):
                      'max_size': 5, 'cut_size': 4, 'cut_limit': 8, 'time_limit': 0, 'hashseed': 0, 'cutseed': 0, 'storage': 'built', 'twice': False, 'ss': 0})
     # wide cuts: 6 and 7 leaves (beyond the default cut_size), cones that are wide AND-OR-XOR trees over 7 inputs so that a
     # 7-leaf cut exists and a smaller equivalent is found quickly; the solver runs under a time limit
-    for j in range(6 if tier == 'quick' else 40):
-        ops = [rng.choice(['AND', 'OR', 'XOR', 'NAND']) for _ in range(6)]
+    wrng = random.Random(seed * 7 + 404)          # its own stream: the shapes do not depend on what was generated before
+    for j in range(12 if tier == 'quick' else 60):
+        # the first ones are pure chains of one operation (a 7-leaf cone whose function is the 7-input AND / OR / XOR)
+        ops = [['AND'] * 6, ['OR'] * 6, ['XOR'] * 6, ['NAND'] + ['AND'] * 5][j] if j < 4 else [wrng.choice(['AND', 'OR', 'XOR', 'NAND']) for _ in range(6)]
         order = list(range(1, 8))
-        rng.shuffle(order)
+        wrng.shuffle(order)
         gs = [[ops[0], [order[0], order[1]]]] + [[ops[k], [7 + k, order[k + 1]]] for k in range(1, 6)]
         # a redundant tail so that something can be saved: the chain output combined with one of its own leaves
-        gs.append([rng.choice(['AND', 'OR']), [13, order[rng.randrange(7)]]])
-        srcs.append({'net': [7, gs], 'outs': [14], 'basis': rng.choice(['XAIG', 'FULL', 'AIG']), 'basis_enum': False, 'validation': j % 2 == 0,
-                     'max_size': 8, 'cut_size': 7 if j % 3 else 6, 'cut_limit': 25, 'time_limit': 8, 'hashseed': rng.choice([0, 7]), 'cutseed': 0,
+        gs.append([wrng.choice(['AND', 'OR']), [13, order[wrng.randrange(7)]]])
+        srcs.append({'net': [7, gs], 'outs': [14], 'basis': ['XAIG', 'FULL', 'AIG'][j % 3], 'basis_enum': False, 'validation': j % 2 == 0,
+                     'max_size': 8, 'cut_size': 7 if j % 4 else 6, 'cut_limit': 25, 'time_limit': 8, 'hashseed': [0, 7][j % 2], 'cutseed': 0,
                      'storage': 'built', 'twice': False, 'ss': 0, 'wide': True})
     ctx['gen_note'] = f'{n} minimize_subcircuits calls (a quarter of them twice in a row), wide cuts (6-7 leaves)'
     return srcs
